@@ -8,7 +8,7 @@ from ..engine.env import EvalHorizon
 from ..ref import geom
 
 ID = "C20"
-RULE = ("enum: every ordered pair of straight segments with endpoints on the integer grid {0..2}^2 (quick; {0..3}^2 thorough) "
+RULE = ("enum: every ordered pair of straight segments with endpoints on the integer grid {0..3}^2 (quick; {0..4}^2 thorough) "
         "with parameter intervals [0,1] and [1,3]; polylines with 2-3 segments x segments; a fixed list of Bezier x segment, "
         "Bezier x Bezier and rational arc x segment pairs. The exact-rational reference classifies each pair (disjoint with "
         "disjoint / overlapping boxes, transversal interior crossing(s), touching or overlapping). Oracle: the call returns, "
@@ -21,7 +21,7 @@ ASSUMPTIONS = ["completeness is demanded only for transversal crossings interior
 
 
 def bounds(tier, seed):
-    return {"grid": 3 if tier == "quick" else 5, "polylines": 40 if tier == "quick" else 400}
+    return {"grid": 4 if tier == "quick" else 5, "polylines": 40 if tier == "quick" else 400}
 
 
 def segments(g):
@@ -189,7 +189,8 @@ def run_case(case, res):
         for B in segs:
             k, st = geom.classify_segments(A, B)
             res.state((A, B))
-            for (ia, ib) in (((0, 1), (0, 1)), ((0, 1), (1, 3))):
+            small = max(max(pt) for pt in A + B) <= 2
+            for (ia, ib) in (((0, 1), (0, 1)), ((0, 1), (1, 3))) if (small or case[1] > 4) else (((0, 1), (1, 3)),):
                 ca, cb = seg_curve(A, ia), seg_curve(B, ib)
                 crossings = []
                 if k == "cross":
